@@ -105,6 +105,11 @@ def gen_spec(g, dt):
         hi = lo + np.array([float(g.choice([1, 2, 10, 24, 360])) for _ in range(d)])
         int_bounds = True
     spec = {"kind": kind, "d": d, "lo": lo, "hi": hi, "int_bounds": int_bounds and kind not in ("affine", "identity")}
+    if kind in ("logit", "probit", "periodic") and d > 1 and g.random() < 0.25:
+        # one interval for all columns, written once as a plain number (e.g. LogitTransform(0.0, 2.0, xp) on a batch of angles)
+        spec["lo"] = np.full(d, float(lo[0]))
+        spec["hi"] = np.full(d, float(hi[0]))
+        spec["scalar_bounds"] = True
     if kind in ("composite", "flowtransform"):
         types = []
         for j in range(d):
@@ -217,6 +222,8 @@ def build(spec, xp, dtype_name, reference=False):
         as_int = bool(spec.get("int_bounds"))
     if as_int:
         lo, hi = [int(v) for v in lo], [int(v) for v in hi]
+    if spec.get("scalar_bounds") and kind in ("logit", "probit", "periodic"):
+        lo, hi = (int(lo[0]), int(hi[0])) if as_int else (float(lo[0]), float(hi[0]))
     if kind == "identity":
         return T.IdentityTransform(xp=xp, dtype=dtype_name)
     if kind == "periodic":
